@@ -212,6 +212,23 @@ Example oracle_accepts_plain :
   check_C13 kp1 1 None ops (scenario_events kp1 1 None [] ops) = [].
 Proof. vm_compute. reflexivity. Qed.
 
+(* ---- progress at a settled point, factory-queueing routers (judged where the model's own run is
+   clean, lib/c13.py): worker 0 is killed while it runs job 1 and the factory queue is empty; its
+   replacement (actor 2) is a routing target again, job 3 starts on it. A history in which job 3 waits
+   in the factory queue while the replacement idles is rejected: the job has no fate and nothing is
+   pending that would give it one. *)
+Definition qr := mk_config RQueuer false [] [].
+Definition killed_busy_ops :=
+  [ODispatch 1 1 None false; OKill 0; ODispatch 2 2 None false; ODispatch 3 3 None false; OQuery].
+Example oracle_replacement_is_a_target_again :
+  scenario_events qr 2 None [] killed_busy_ops
+  = [[EStart 1 0 0]; [EDrop 1 (CDeath 0)]; [EStart 2 1 1]; [EStart 3 0 2]; [EQDepth 0; EQActive 2; EQCap 0]]
+  /\ check_C13 qr 2 None killed_busy_ops (scenario_events qr 2 None [] killed_busy_ops) = []
+  /\ check_C13 qr 2 None killed_busy_ops
+       [[EStart 1 0 0]; [EDrop 1 (CDeath 0)]; [EStart 2 1 1]; []; [EQDepth 1; EQActive 1; EQCap 1]]
+     = [AQueuedWhileFree 4 1 1].
+Proof. vm_compute. repeat split; reflexivity. Qed.
+
 Print Assumptions C13_places_partition.
 Print Assumptions C13_one_place.
 Print Assumptions C13_never_runs_twice.
